@@ -28,6 +28,8 @@ func init() {
 			{Name: "C13.R1", Run: func(c *Ctx) { ruleAdjustPure(c, "C13.R1") }},
 			{Name: "C13.R2", Run: func(c *Ctx) { ruleRelocationComplete(c, "C13.R2") }},
 			{Name: "C13.R7", Run: func(c *Ctx) { ruleRelocationScope(c, "C13.R7") }},
+			{Name: "C13.R8", Run: func(c *Ctx) { ruleSnapshotIsolation(c, "C13.R8") }},
+			{Name: "C13.R9", Run: func(c *Ctx) { ruleOnePassGeneration(c, "C13.R9") }},
 			{Name: "C13.R3", Run: func(c *Ctx) { ruleProgramReadOnly(c, "C13.R3") }},
 			{Name: "C13.R4", Run: func(c *Ctx) { ruleCommandScope(c, "C13.R4") }},
 			{Name: "C13.R6", Run: func(c *Ctx) { ruleAttemptFresh(c, "C13.R6") }},
@@ -56,6 +58,7 @@ func init() {
 			{Name: "C01.R4", Run: func(c *Ctx) { ruleRelocationScope(c, "C01.R4") }},
 			{Name: "C01.R5", Run: func(c *Ctx) { ruleLoopProtocol(c, "C01.R5") }},
 			{Name: "C01.R6", Run: func(c *Ctx) { ruleBacktrackResumesTop(c, "C01.R6"); ruleSnapshotIsolation(c, "C01.R6b") }},
+			{Name: "C01.R7", Run: func(c *Ctx) { ruleAlternativeOrder(c, "C01.R7") }},
 			{Name: "C01.R3", Run: func(c *Ctx) { ruleScanDiscipline(c, "C01.R3"); ruleAttemptFresh(c, "C01.R3b") }},
 		},
 	})
@@ -69,6 +72,7 @@ func init() {
 			{Name: "C02.R2", Run: func(c *Ctx) { ruleBindingProvenance(c, "C02.R2") }},
 			{Name: "C02.R3", Run: func(c *Ctx) { ruleHandlersOwnCopy(c, "C02.R3") }},
 			{Name: "C02.R4", Run: func(c *Ctx) { ruleAttemptFresh(c, "C02.R4") }},
+			{Name: "C02.R5", Run: func(c *Ctx) { ruleValueCopyDeep(c, "C02.R5"); ruleBoundTextIsConsumedText(c, "C02.R6") }},
 		},
 	})
 	register(&Property{
@@ -82,6 +86,7 @@ func init() {
 			{Name: "C03.R3", Run: func(c *Ctx) { ruleRecordConstruction(c, "C03.R3") }},
 			{Name: "C03.R4", Run: func(c *Ctx) { ruleScanDiscipline(c, "C03.R4"); ruleWindow(c, "C03.R4b") }},
 			{Name: "C03.R5", Run: func(c *Ctx) { ruleBindingProvenance(c, "C03.R5") }},
+			{Name: "C03.R6", Run: func(c *Ctx) { ruleReaderOffsetsAreFileOffsets(c, "C03.R6") }},
 		},
 	})
 	register(&Property{
@@ -99,6 +104,8 @@ func init() {
 			{Name: "C05.R3", Run: func(c *Ctx) { rulePerMatchReplacer(c, "C05.R3") }},
 			{Name: "C05.R3b", Run: func(c *Ctx) { ruleReplacerOwnsItsTables(c, "C05.R3b") }},
 			{Name: "C05.R7", Run: func(c *Ctx) { ruleProcessEnvFresh(c, "C05.R7") }},
+			{Name: "C05.R8", Run: func(c *Ctx) { ruleBuiltinsWin(c, "C05.R8") }},
+			{Name: "C05.R9", Run: func(c *Ctx) { ruleTransformBoundAtCompileTime(c, "C05.R9") }},
 			{Name: "C05.R5", Run: func(c *Ctx) { rulePlumbing(c, "C05.R5") }},
 			{Name: "C05.R6", Run: func(c *Ctx) { ruleItemKinds(c, "C05.R6") }},
 		},
@@ -138,6 +145,8 @@ func init() {
 			{Name: "C08.R6", Run: func(c *Ctx) { ruleErrorsPrintable(c, "C08.R6") }},
 			{Name: "C08.R7", Run: func(c *Ctx) { ruleTypeSwitchTotal(c, "C08.R7") }},
 			{Name: "C08.R8", Run: func(c *Ctx) { ruleCompileNeverNilNil(c, "C08.R8") }},
+			{Name: "C08.R9", Run: func(c *Ctx) { ruleHexGuard(c, "C08.R9") }},
+			{Name: "C08.R10", Run: func(c *Ctx) { ruleBoundedLoops(c, "C08.R10", []string{"bytecode"}) }},
 		},
 	})
 	register(&Property{
@@ -150,6 +159,7 @@ func init() {
 			{Name: "C06.R2", Run: func(c *Ctx) { ruleWhoWritesFiles(c, "C06.R2") }},
 			{Name: "C06.R4", Run: func(c *Ctx) { ruleSpliceLoop(c, "C06.R4") }},
 			{Name: "C06.R5", Run: func(c *Ctx) { ruleReaderPerSearch(c, "C06.R5") }},
+			{Name: "C06.R6", Run: func(c *Ctx) { ruleReaderOffsetsAreFileOffsets(c, "C06.R6") }},
 		},
 	})
 	register(&Property{
@@ -161,6 +171,9 @@ func init() {
 			{Name: "C07.R2", Run: func(c *Ctx) { ruleSizeAgreement(c, "C07.R2") }},
 			{Name: "C07.R3", Run: func(c *Ctx) { ruleOneAccessPath(c, "C07.R3") }},
 			{Name: "C07.R4", Run: func(c *Ctx) { ruleReaderPerSearch(c, "C07.R4") }},
+			{Name: "C07.R5", Run: func(c *Ctx) { ruleEveryFileIsSearched(c, "C07.R5") }},
+			{Name: "C07.R6", Run: func(c *Ctx) { ruleReaderOffsetsAreFileOffsets(c, "C07.R6") }},
+			{Name: "C07.R7", Run: func(c *Ctx) { ruleNoSharedBuffers(c, "C07.R7") }},
 		},
 	})
 	register(&Property{
@@ -228,6 +241,7 @@ func init() {
 			{Name: "C09.R10", Run: func(c *Ctx) { ruleSnapshotIsolation(c, "C09.R10") }},
 			{Name: "C09.R11", Run: func(c *Ctx) { ruleOptionalGuard(c, "C09.R11") }},
 			{Name: "C09.R12", Run: func(c *Ctx) { ruleScanDiscipline(c, "C09.R12") }},
+			{Name: "C09.R13", Run: func(c *Ctx) { ruleEmptyReadsNotIndexed(c, "C09.R13") }},
 		},
 	})
 	register(&Property{
@@ -252,6 +266,8 @@ func init() {
 			{Name: "C10.R4", Run: func(c *Ctx) { ruleScanDiscipline(c, "C10.R4") }},
 			{Name: "C10.R5", Run: func(c *Ctx) { ruleLoopIdentity(c, "C10.R5") }},
 			{Name: "C10.R6", Run: func(c *Ctx) { ruleConsumingLoopsStopAtEOF(c, "C10.R6") }},
+			{Name: "C10.R7", Run: func(c *Ctx) { ruleSnapshotIsolation(c, "C10.R7") }},
+			{Name: "C10.R8", Run: func(c *Ctx) { ruleJumpsGoForward(c, "C10.R8") }},
 		},
 	})
 	register(&Property{
@@ -265,6 +281,7 @@ func init() {
 			{Name: "C11.R2", Run: func(c *Ctx) { ruleCoercions(c, "C11.R2") }},
 			{Name: "C11.R3", Run: func(c *Ctx) { rulePrecedence(c, "C11.R3") }},
 			{Name: "C11.R4", Run: func(c *Ctx) { ruleUnaryTable(c, "C11.R4") }},
+			{Name: "C11.R5", Run: func(c *Ctx) { ruleNoExpressionRewrites(c, "C11.R5") }},
 		},
 	})
 	register(&Property{
@@ -279,6 +296,7 @@ func init() {
 			{Name: "C12.R4", Run: func(c *Ctx) { ruleCheckerAlwaysRun(c, "C12.R4") }},
 			{Name: "C12.R6", Run: func(c *Ctx) { ruleCheckErrorsPropagate(c, "C12.R6") }},
 			{Name: "C12.R7", Run: func(c *Ctx) { ruleCheckerEnvFresh(c, "C12.R7") }},
+			{Name: "C12.R8", Run: func(c *Ctx) { ruleBuiltinsWin(c, "C12.R8") }},
 			{Name: "C12.R5", Run: func(c *Ctx) {
 				ruleTypeSwitchComplete(c, "C12.R5", []string{"bytecode", "engine"}, func(n *types.Named) bool {
 					return n.Obj().Name() == "AstProcessStatement" || n.Obj().Name() == "AstProcessExpression"
@@ -305,14 +323,13 @@ func init() {
 			{Name: "C15.R1", Run: func(c *Ctx) {
 				exc := "frozen exception: the index returned by parse_process_statements is the `end`/`else`/EOF token on which the statement list stopped; parse_process_statement returned its own (skipped) index parameter unchanged on that path. Proving it needs a path-sensitive summary."
 				ruleSkipDiscipline(c, "C15.R1", map[string]string{
-					"parse_set_transform: raw index returned by ast.parse_process_statements": exc,
-					"parse_set_pattern: raw index returned by ast.parse_process_statements":   exc,
-					"parse_process_if: raw index returned by ast.parse_process_statements":    exc,
+					"*: raw index returned by ast.parse_process_statements": exc,
 				})
 			}},
 			{Name: "C15.R2", Run: func(c *Ctx) { ruleIgnorableSiblings(c, "C15.R2") }},
 			{Name: "C15.R3", Run: func(c *Ctx) { ruleKeywordCase(c, "C15.R3") }},
 			{Name: "C15.R4", Run: func(c *Ctx) { ruleLexerTokenMemory(c, "C15.R4") }},
+			{Name: "C15.R5", Run: func(c *Ctx) { ruleLexemeComparedRaw(c, "C15.R5") }},
 		},
 	})
 	register(&Property{
@@ -353,6 +370,8 @@ func init() {
 			{Name: "C18.R4", Run: func(c *Ctx) { ruleCLIModeTable(c, "C18.R4") }},
 			{Name: "C18.R5", Run: func(c *Ctx) { ruleCLIFlags(c, "C18.R5") }},
 			{Name: "C18.R6", Run: func(c *Ctx) { ruleCutsetNotPrefix(c, "C18.R6", []string{"main", "files", "engine"}) }},
+			{Name: "C18.R7", Run: func(c *Ctx) { ruleJSONMarshalSafe(c, "C18.R7"); ruleJSONTextUntouched(c, "C18.R7b") }},
+			{Name: "C18.R8", Run: func(c *Ctx) { ruleModeTable(c, "C18.R8") }},
 		},
 	})
 	register(&Property{
